@@ -1,11 +1,13 @@
 #!/usr/bin/env python3
-"""confirm_seed.py <pid> <mN> <append-file> <test-filter>
+"""confirm_seed.py <pid> <mN> <append-file> <test-filter> [<stored-name>]   (SEED_BASE=/tmp/wt2 for the second round)
 Confirm a seeded change in its scratch worktree /tmp/wt/<pid>: patch applies, existing suite passes with it,
 demo fails with it and passes without it. On success copy to /verif/seeded/<pid>_<mN>/."""
 import json, os, re, subprocess, sys, shutil
 pid, m, target, filt = sys.argv[1:5]
-wt = "/tmp/wt/%s" % pid
-out = "/tmp/wt/out-%s/%s" % (pid, m)
+base = os.environ.get("SEED_BASE", "/tmp/wt")
+dstname = sys.argv[5] if len(sys.argv) > 5 else m
+wt = "%s/%s" % (base, pid)
+out = "%s/out-%s/%s" % (base, pid, m)
 def sh(cmd, **kw):
     return subprocess.run(cmd, shell=True, cwd=wt, capture_output=True, text=True, **kw)
 def counts(txt):
@@ -33,7 +35,7 @@ res = {"suite_with_patch": {"passed": sp, "failed": sf}, "demo_with_patch": {"pa
        "demo_without_patch": {"passed": np_, "failed": nf}, "confirmed": ok}
 print(pid, m, json.dumps(res))
 if ok:
-    dst = "/verif/seeded/%s_%s" % (pid, m)
+    dst = "/verif/seeded/%s_%s" % (pid, dstname)
     os.makedirs(dst, exist_ok=True)
     shutil.copy(os.path.join(out, "patch.diff"), dst)
     shutil.copy(os.path.join(out, "demo_test.rs"), dst)
